@@ -39,6 +39,12 @@ func c08Rules(c *Ctx) {
 			// the topic tested is the topic added
 			a := callArgs(adds[0])
 			okArgs := len(a) >= 3 && FieldLoad("memberAndTopic.memberID")(a[1]) && FieldLoad("topicAndPartition.topic")(a[2])
+			// exactly one Add per topic-partition: every partition of the sorted list is assigned, once
+			if l != nil {
+				cr := reg.Count(IsItem(adds[0]))
+				c.Check(!cr.HasNone() && !cr.HasTwo(), rule, fn, "roundrobin:each-partition-once", adds[0].Instr(), "every iteration over the sorted topic-partitions adds the partition to exactly one member",
+					"round-robin can leave a topic-partition unassigned (a path of the iteration skips plan.Add) or assign it twice", cr.NonePath)
+			}
 			c.Check(g && okArgs, rule, fn, "roundrobin:hasTopic", adds[0].Instr(), "a partition is added to a member only under m.hasTopic(tp.topic)", "round-robin can assign a partition to a member that does not subscribe to its topic", path)
 		}
 	}
